@@ -1,4 +1,5 @@
 import CnlProofs.Overflow
+import CnlProofs.OverflowFloat
 /-!
 # C06 — overflow is detected exactly, and handled as the overflow tag specifies
 
@@ -16,16 +17,23 @@ saturated, throwing, trapping, and also `undefined`).
                                         conversion between any two types.
 * `builtin_arith_correct`               `+ - *` on the intrinsic path, **any** signedness and width mix.
 * `div_correct`                         `/` on both paths, operands of one signedness, divisor ≠ 0.
-* `shl_correct`                         `<<` on both paths, count ≥ 0, outside the two open classes.
+* `shl_correct`                         `<<` on both paths, every count ≥ 0 (no excluded class since the
+                                        repairs of `shl_zero_by_wide_count` and `shl_minus_one_to_lowest`).
+* `convert_float_flag_iff`, `convert_float_correct`   floating-point sources (section 6): for every
+                                        format, destination type and finite operand the test fires iff the
+                                        REAL value is outside `[lowest, max]`; otherwise truncation.
 * `portable_arith_correct`              `+ - *` on the portable path, operands of one signedness;
   `portable_arith_correct_value_preserving` the same whenever the common type holds both operand
   types' values (also covers e.g. `uint16 + int32`, `uint32 * int64`).
-* refutations from concrete witnesses (open findings `C06.shl_zero_by_wide_count`,
-  `C06.shl_minus_one_to_lowest`, `C06.portable_mixed_signedness`, `C06.div_mixed_signedness`):
-  `shl_zero_wide_refuted`, `shl_minus_one_refuted`, `portable_mixed_refuted`, `div_mixed_refuted`.
+* refutations from concrete witnesses: of the open findings `C06.portable_mixed_signedness`,
+  `C06.div_mixed_signedness` (`portable_mixed_refuted`, `div_mixed_refuted`), and of the **as-found**
+  definitions of the repaired findings `C06.shl_zero_by_wide_count`, `C06.shl_minus_one_to_lowest`,
+  `C06.float_at_limit_not_flagged` (`shl_zero_wide_refuted`, `shl_minus_one_refuted`,
+  `float_at_limit_refuted`; the as-found operators are kept as `checkedShiftOrig`,
+  `checkedConvertFloatOrig`).
 
 Hypotheses beyond the task's, and why (each is shown necessary by a witness below; none excludes
-a built-in type):
+a built-in integer operand type; the floating-point one excludes the single pair `float → unsigned __int128`):
 
 * `convert_correct` needs `1 ≤ S.digits` for the source: a *one-bit signed* source (range −1…0, no
   such built-in type) has `overflow_digits<S, negative> = 0` and −1 → unsigned is let through.
@@ -35,6 +43,10 @@ a built-in type):
   `digits L + digits R > digits T` is false although `lowest · lowest = 2^digits T` overflows
   (`portable_mul_guard_refuted`).
 * `shl_correct` needs `L.bits < 2^31`: the digit count is an `int` constant in the code.
+* `convert_float_correct` needs `digits D ≤ emax` of the format (`2^digits` is finite in it): of the
+  built-in pairs only `float → unsigned __int128` is outside (the converted limit is `+∞`; that pair is
+  covered by the correspondence table alone), and a finite operand (`NaN`, `±∞` are covered by the
+  correspondence table alone).
 
 Nothing is left unproved.
 -/
@@ -127,27 +139,27 @@ theorem div_mixed_refuted :
 
 /-! ## 4. left shift -/
 
-/-- `<<` on both paths, any operand types, count `r ≥ 0`, outside the two open defect classes
-(`0 << n` with `n ≥` width; `-1 << digits`): the outcome the tag prescribes for `l · 2^r` in the
-promoted left operand type. -/
+/-- `<<` on both paths, any operand types, **every** count `r ≥ 0` (counts at and beyond the width
+included): the outcome the tag prescribes for `l · 2^r` in the promoted left operand type.  (Before the
+repairs two classes were excluded — `0 << n` with `n ≥` width, `-1 << digits` — see the refutations of
+the as-found operator below.) -/
 theorem shl_correct (path : Path) (tag : OvTag) (ht : tag ≠ .nat) (L R : IntTy) (hL : 1 ≤ L.bits)
     (hR : 1 ≤ R.bits) (hw : L.bits ≤ 2147483647) (l r : Int) (hl : L.InRange l) (hr : R.InRange r)
-    (h0 : 0 ≤ r) (hz : ¬(l = 0 ∧ r ≥ (promote L).bits)) (hm : ¬(l = -1 ∧ r = (promote L).digits)) :
+    (h0 : 0 ≤ r) :
     checkedBin path tag .shl (L, l) (R, r) = checkedWant tag (promote L) (l * 2^r.toNat) := by
   obtain ⟨j, rfl⟩ := Int.eq_ofNat_of_zero_le h0
   rw [Int.toNat_natCast]
-  exact checkedBin_shl_eq hL hR hw hl hr path ht (by omega) (by omega)
+  exact checkedBin_shl_eq hL hR hw hl hr path ht
 
 /-- the same through `Spec.exactBin` -/
 theorem shl_correct_exact (path : Path) (tag : OvTag) (ht : tag ≠ .nat) (L R : IntTy) (hL : 1 ≤ L.bits)
     (hR : 1 ≤ R.bits) (hw : L.bits ≤ 2147483647) (l r : Int) (hl : L.InRange l) (hr : R.InRange r)
-    (hz : ¬(l = 0 ∧ r ≥ (promote L).bits)) (hm : ¬(l = -1 ∧ r = (promote L).digits))
     (e : Int) (he : exactBin .shl l r = some e) :
     checkedBin path tag .shl (L, l) (R, r) = checkedWant tag (promote L) e := by
   by_cases h0 : r < 0
   · simp [exactBin, h0] at he
   · simp only [exactBin, h0, ite_false, Option.some.injEq] at he; subst he
-    exact shl_correct path tag ht L R hL hR hw l r hl hr (by omega) hz hm
+    exact shl_correct path tag ht L R hL hR hw l r hl hr (by omega)
 
 example : checkedBin .builtin .sat .shl (i32, 1) (i32, 30) = .ok (i32, 1073741824) := by decide
 example : checkedBin .builtin .sat .shl (i32, 1) (i32, 31) = .ok (i32, 2147483647) := by decide
@@ -155,19 +167,37 @@ example : checkedBin .portable .sat .shl (i8, -128) (u8, 24) = .ok (i32, -214748
 example : checkedBin .portable .thr .shl (i8, -128) (u8, 25) = .throws false := by decide
 example : checkedBin .builtin .sat .shl (u32, 1) (i64, 1000) = .ok (u32, 4294967295) := by decide
 example : checkedBin .builtin .sat .shl (i64, -2) (i8, 62) = .ok (i64, -9223372036854775808) := by decide +kernel
+-- the formerly failing instances
+example : checkedBin .builtin .sat .shl (i32, 0) (i32, 64) = .ok (i32, 0) := by decide
+example : checkedBin .portable .trp .shl (u8, 0) (u64, 18446744073709551615) = .ok (i32, 0) := by decide
+example : checkedBin .builtin .thr .shl (i64, -1) (u32, 63) = .ok (i64, -9223372036854775808) := by decide +kernel
+example : checkedBin .builtin .thr .shl (i64, -1) (u32, 64) = .throws false := by decide
+example : checkedBin .builtin .thr .shl (i8, -1) (i8, 31) = .ok (i32, -2147483648) := by decide +kernel
 
-/-- open finding `C06.shl_zero_by_wide_count`: `0 << 64` is not an overflow (`0 · 2^64 = 0`) but the
-shift is then executed with an out-of-range count -/
+/-- repaired finding `C06.shl_zero_by_wide_count`: **as found** (`checkedShiftOrig`), `0 << 64` is not
+an overflow (`0 · 2^64 = 0`) but the shift was then executed with an out-of-range count; the repaired
+operator returns 0 -/
 theorem shl_zero_wide_refuted :
-    checkedBin .builtin .sat .shl (i32, 0) (i32, 64) = .ub .shiftCount ∧
-    exactBin .shl 0 64 = some 0 ∧ checkedWant .sat (promote i32) 0 = .ok (i32, 0) := by decide
+    checkedShiftOrig .sat .shl (i32, 0) (i32, 64) = .ub .shiftCount ∧
+    exactBin .shl 0 64 = some 0 ∧ checkedWant .sat (promote i32) 0 = .ok (i32, 0) ∧
+    checkedBin .builtin .sat .shl (i32, 0) (i32, 64) = .ok (i32, 0) := by decide
 
-/-- open finding `C06.shl_minus_one_to_lowest`: `-1 << 63` is the lowest `int64` and fits, yet
-negative overflow is signalled -/
+/-- repaired finding `C06.shl_minus_one_to_lowest`: **as found**, `-1 << 63` — the lowest `int64`, which
+fits — signalled negative overflow; the repaired test lets it through -/
 theorem shl_minus_one_refuted :
-    checkedBin .builtin .thr .shl (i64, -1) (u32, 63) = .throws false ∧
+    checkedShiftOrig .thr .shl (i64, -1) (u32, 63) = .throws false ∧
     exactBin .shl (-1) 63 = some (-9223372036854775808) ∧
-    checkedWant .thr (promote i64) (-9223372036854775808) = .ok (i64, -9223372036854775808) := by decide
+    checkedWant .thr (promote i64) (-9223372036854775808) = .ok (i64, -9223372036854775808) ∧
+    checkedBin .builtin .thr .shl (i64, -1) (u32, 63) = .ok (i64, -9223372036854775808) := by decide +kernel
+
+/-- the as-found and the repaired operators differ **only** on the two repaired classes (so the
+exclusions the former `shl_correct` carried were exactly the defect) -/
+theorem shl_orig_eq_outside_classes (path : Path) (tag : OvTag) (L R : IntTy) (hL : 1 ≤ L.bits)
+    (hR : 1 ≤ R.bits) (hw : L.bits ≤ 2147483647) (l r : Int) (hl : L.InRange l) (hr : R.InRange r)
+    (h0 : 0 ≤ r) (hz : ¬(l = 0 ∧ r ≥ (promote L).bits)) (hm : ¬(l = -1 ∧ r = (promote L).digits)) :
+    checkedShiftOrig tag .shl (L, l) (R, r) = checkedBin path tag .shl (L, l) (R, r) := by
+  obtain ⟨j, rfl⟩ := Int.eq_ofNat_of_zero_le h0
+  exact checkedShiftOrig_shl_eq hL hR hw hl hr path (by omega) (by omega)
 
 /-! ## 2. `+ - *` on the portable path -/
 
@@ -241,5 +271,91 @@ theorem portable_mul_guard_refuted :
     MulGuardExact ⟨17, true⟩ ⟨16, true⟩ ∧
     checkedBin .portable .sat .mul (⟨17, true⟩, -65536) (⟨16, true⟩, -32768) = .ub .signedOverflow ∧
     checkedWant .sat (usualArith ⟨17, true⟩ ⟨16, true⟩) (-65536 * -32768) = .ok (i32, 2147483647) := by decide
+
+/-! ## 6. conversion from floating point
+
+`RealGt s m e a` / `RealLt s m e a` (`CnlProofs/OverflowFloat.lean`): the real number `(-1)^s · m · 2^e`
+is greater / less than the integer `a`.  A finite operand of a format `f` is `.fin s m e` with
+`m < 2^f.prec`.  `FmtOk f` (`prec ≥ 2`, `emin ≤ 0`, `prec - 1 ≤ emax`) holds of every IEEE format.
+The hypothesis `digits D ≤ emax` says that `2^digits` is finite in the format; of the built-in pairs
+it excludes only `float → unsigned __int128` (where the converted limit is `+∞`). -/
+
+/-- The repaired overflow test of a conversion from floating point, every format, every integer
+destination, every finite operand: positive overflow is flagged **iff the real value exceeds `max`**,
+negative overflow **iff it is below `lowest`** (255.5 → uint8 overflows; 2^31 → int32 overflows although
+`float(INT_MAX) = 2^31`). -/
+theorem convert_float_flag_iff (f : Fmt) (hf : FloatP.FmtOk f) (D : IntTy) (hmax : (D.digits : Int) ≤ f.emax)
+    (s : Bool) (m : Nat) (e : Int) (hm : m < 2^f.prec) :
+    isOverflowConvertFloat f (.ofIntTy D) true (.fin s m e) = decide (RealGt s m e D.max) ∧
+    isOverflowConvertFloat f (.ofIntTy D) false (.fin s m e) = decide (RealLt s m e D.lowest) :=
+  ⟨flag_pos_iff f hf _ (goodDest_ofIntTy D) hmax s m e hm, flag_neg_iff f hf _ (goodDest_ofIntTy D) hmax s m e hm⟩
+
+/-- … and the conversion as a whole: the outcome the tag prescribes for a result above the range, below
+the range, or for the value truncated toward zero. -/
+theorem convert_float_correct (tag : OvTag) (ht : tag ≠ .nat) (f : Fmt) (hf : FloatP.FmtOk f) (D : IntTy)
+    (hmax : (D.digits : Int) ≤ f.emax) (s : Bool) (m : Nat) (e : Int) (hm : m < 2^f.prec) :
+    checkedConvertFloat tag f D (.fin s m e) =
+      if RealGt s m e D.max then checkedWant tag D (D.max + 1)
+      else if RealLt s m e D.lowest then checkedWant tag D (D.lowest - 1)
+      else checkedWant tag D (truncInt s m e) := by
+  rw [checkedConvertFloat_eq ht f hf D hmax s m e hm]
+  by_cases hg : RealGt s m e D.max
+  · simp only [hg, ite_true]; exact (want_pos ht (by omega)).symm
+  · by_cases hl : RealLt s m e D.lowest
+    · simp only [hg, hl, ite_true, ite_false]; exact (want_neg ht (by omega)).symm
+    · simp only [hg, hl, ite_false]; exact (want_in (trunc_inRange D s m e hg hl)).symm
+
+/-- the three hardware formats and the built-in types they can overflow -/
+theorem convert_float_correct_binary32 (tag : OvTag) (ht : tag ≠ .nat) (D : IntTy) (hD : D.digits ≤ 127)
+    (s : Bool) (m : Nat) (e : Int) (hm : m < 2^24) :
+    checkedConvertFloat tag binary32 D (.fin s m e) =
+      if RealGt s m e D.max then checkedWant tag D (D.max + 1)
+      else if RealLt s m e D.lowest then checkedWant tag D (D.lowest - 1)
+      else checkedWant tag D (truncInt s m e) :=
+  convert_float_correct tag ht binary32 FloatP.fmtOk_binary32 D (by simp only [binary32]; omega) s m e hm
+
+theorem convert_float_correct_binary64 (tag : OvTag) (ht : tag ≠ .nat) (D : IntTy) (hD : D.digits ≤ 1023)
+    (s : Bool) (m : Nat) (e : Int) (hm : m < 2^53) :
+    checkedConvertFloat tag binary64 D (.fin s m e) =
+      if RealGt s m e D.max then checkedWant tag D (D.max + 1)
+      else if RealLt s m e D.lowest then checkedWant tag D (D.lowest - 1)
+      else checkedWant tag D (truncInt s m e) :=
+  convert_float_correct tag ht binary64 FloatP.fmtOk_binary64 D (by simp only [binary64]; omega) s m e hm
+
+theorem convert_float_correct_x87ext (tag : OvTag) (ht : tag ≠ .nat) (D : IntTy) (hD : D.digits ≤ 16383)
+    (s : Bool) (m : Nat) (e : Int) (hm : m < 2^64) :
+    checkedConvertFloat tag x87ext D (.fin s m e) =
+      if RealGt s m e D.max then checkedWant tag D (D.max + 1)
+      else if RealLt s m e D.lowest then checkedWant tag D (D.lowest - 1)
+      else checkedWant tag D (truncInt s m e) :=
+  convert_float_correct tag ht x87ext FloatP.fmtOk_x87ext D (by simp only [x87ext]; omega) s m e hm
+
+-- non-vacuity at the repaired boundary: float 2^31, 2^31 - 128, -2^31, -2^31 - 256 → int32; 255.5 → uint8
+example : checkedConvertFloat .sat binary32 i32 (.fin false 8388608 8) = .ok (i32, 2147483647) := by decide +kernel
+example : checkedConvertFloat .thr binary32 i32 (.fin false 8388608 8) = .throws true := by decide +kernel
+example : checkedConvertFloat .thr binary32 i32 (.fin false 16777215 7) = .ok (i32, 2147483520) := by decide +kernel
+example : checkedConvertFloat .thr binary32 i32 (.fin true 8388608 8) = .ok (i32, -2147483648) := by decide +kernel
+example : checkedConvertFloat .thr binary32 i32 (.fin true 8388609 8) = .throws false := by decide +kernel
+example : checkedConvertFloat .sat binary32 u8 (.fin false 16744448 (-16)) = .ok (u8, 255) ∧
+    RealGt false 16744448 (-16) u8.max := by decide +kernel
+example : checkedConvertFloat .trp binary64 u64 (.fin false 4503599627370496 12) = .trap true := by decide +kernel
+example : checkedConvertFloat .trp binary64 u64 (.fin true 4503599627370496 (-53)) = .trap false := by decide +kernel
+example : checkedConvertFloat .trp binary64 u64 (.fin true 0 (-1074)) = .ok (u64, 0) := by decide +kernel
+example : RealGt false 8388608 8 i32.max ∧ ¬ RealGt false 16777215 7 i32.max ∧ RealLt true 1 (-1) u8.lowest := by
+  decide +kernel
+
+/-- the hypothesis `digits D ≤ emax` of `convert_float_correct` marks a real boundary: the limit of
+`unsigned __int128` converts to `+∞` in binary32 (no finite `float` overflows that type) -/
+example : binary32.ofInt u128.max = .inf false ∧ ¬ ((u128.digits : Int) ≤ binary32.emax) := by decide +kernel
+
+/-- repaired finding `C06.float_at_limit_not_flagged`: **as found** (`checkedConvertFloatOrig`, the strict
+comparison against the converted limit) `float 2^31 → int32` was not flagged — `float(INT_MAX)` is
+`2^31` — and the cast was executed out of range; the repaired test flags it -/
+theorem float_at_limit_refuted :
+    checkedConvertFloatOrig .sat binary32 i32 (.fin false 8388608 8) = .ub .floatToIntRange ∧
+    RealGt false 8388608 8 i32.max ∧
+    binary32.ofInt i32.max = .fin false 8388608 8 ∧
+    checkedConvertFloat .sat binary32 i32 (.fin false 8388608 8) = checkedWant .sat i32 (i32.max + 1) := by
+  decide +kernel
 
 end Cnl.C06
